@@ -3,7 +3,8 @@
 (* Trace spec for C09: replays the ndjson log (env VERIF_TRACE) recorded by *)
 (* harness/cmd/c09drv from the real regclient.ImageExport / ImageImport      *)
 (* through the property monitor ExportImportProp.                            *)
-(*   src         raw source store: od/os objects (digest, sha256 of bytes),  *)
+(*   src         raw source store: od/os/oa/oh objects (digest, sha256 of    *)
+(*               bytes, algorithm of the digest, hash with that algorithm),  *)
 (*               ep/ec/er/ei edges (parent, child, role, position), top, tag *)
 (*   tar         independent archive/tar parse of the exported stream        *)
 (*   export      ImageExport returned                         -> O1          *)
@@ -19,7 +20,7 @@ Log == ndJsonDeserialize(IOEnv.VERIF_TRACE)
 VARIABLE l
 Ev == Log[l]
 
-Objs(e) == {[d |-> e.od[i], sha |-> e.os[i]] : i \in 1..Len(e.od)}
+Objs(e) == {[d |-> e.od[i], sha |-> e.os[i], a |-> e.oa[i], h |-> e.oh[i]] : i \in 1..Len(e.od)}
 Edges(e) == {[p |-> e.ep[i], c |-> e.ec[i], role |-> e.er[i], i |-> e.ei[i]] : i \in 1..Len(e.ep)}
 SrcOf(e) == [objs |-> Objs(e), edges |-> Edges(e), top |-> e.top, tag |-> e.tag, single |-> e.single = 1]
 TarOf(e) == [names |-> e.names, types |-> e.types, alg |-> e.alg, hex |-> e.hex, calc |-> e.calc, sha |-> e.sha,
